@@ -422,6 +422,11 @@ func (o *Manager) shouldRecordObservation(conn connMultiaddrs, observed ma.Multi
 func (o *Manager) maybeRecordObservation(conn connMultiaddrs, observed ma.Multiaddr) {
 	shouldRecord, localTW, observedTW := o.shouldRecordObservation(conn, observed)
 	if !shouldRecord {
+		// The connection's latest observation is unusable. It still replaces the
+		// previous one, so stop counting that.
+		if conn != nil && observed != nil {
+			o.removeConn(conn)
+		}
 		return
 	}
 	log.Debug("added own observed listen addr", "conn", conn, "observed", observed)
